@@ -256,6 +256,9 @@ func c13Batch(job *c13Job, mark func(fi, ci int)) *c13Out {
 			case o.paniced:
 				check = "C13.panic@" + o.site
 				detail = fmt.Sprintf("%s decoder, %s (%d bytes): panic: %v (called from %s)", dn, c.label, len(c.data), o.pval, o.caller)
+			case o.err == nil && c.declared != "":
+				check = "C13.limit-declared@" + v.kind.name + "/" + c.declared
+				detail = fmt.Sprintf("%s decoder, %s: the encoding declares %s above the documented limit and was decoded without error", dn, c.label, c.declared)
 			case o.err == nil:
 				out.Counters["probe.mutant-decoded-without-error"]++
 				lim := guarded(func() (any, error) { return gen.OverLimit(o.v), nil })
